@@ -509,6 +509,8 @@ func (s *SortedSet) MarshalJSON() ([]byte, error) {
 			Score: strconv.FormatFloat(float64(m.Score), 'g', -1, 64),
 		})
 	}
+	// Sorted, so that equal sorted sets have equal encodings (snapshots are compared by their hash).
+	slices.SortFunc(members, func(a, b sortedSetMemberJSON) int { return strings.Compare(string(a.Value), string(b.Value)) })
 	return json.Marshal(members)
 }
 
